@@ -1,7 +1,137 @@
-From Coq Require Import List QArith.
+(* C31 — property theorems only.  Model: PP.Model.C31 (transcription of the predicates of
+   geometry_property_checks.py, half_space.py and the orderings of sort_points.py);
+   proofs: PP.Proofs.C31. *)
+From Coq Require Import List QArith Qabs ZArith Lia.
 Import ListNotations.
-From PP Require Import Model.C28 Model.C31.
+From PP Require Import Model.C28 Model.C31 Proofs.C28 Proofs.C31.
 Open Scope Q_scope.
-Theorem C31_placeholder : is_ccw_polygon [(0,0);(1,0);(0,1)] = true.
+
+(* is_ccw_polygon: for EVERY polygon (any vertex list) the answer is True exactly when the
+   signed (shoelace) area is positive. *)
+Theorem C31_ccw_iff_area_positive :
+  forall poly : list v2, is_ccw_polygon poly = true <-> 0 < area2 poly.
+Proof. exact ccw_iff_area_positive. Qed.
+Print Assumptions C31_ccw_iff_area_positive.
+
+(* is_ccw_polyline: strictly left of p1->p2 (beyond tol) => True, strictly right => False,
+   within the band => the caller's default. *)
+Theorem C31_polyline_side :
+  forall tol default p1 p2 p3, 0 <= tol ->
+    (tol < cross3 p1 p2 p3 -> is_ccw_polyline tol default p1 p2 p3 = true) /\
+    (cross3 p1 p2 p3 < - tol -> is_ccw_polyline tol default p1 p2 p3 = false) /\
+    (Qabs (cross3 p1 p2 p3) <= tol -> is_ccw_polyline tol default p1 p2 p3 = default).
+Proof. exact polyline_spec. Qed.
+Print Assumptions C31_polyline_side.
+
+(* half-space intersection: with as many normals as base points the call does not raise
+   and point i is reported inside exactly when it satisfies ALL inequalities
+   (p - x0_k).n_k <= 0; with different numbers of columns it raises ValueError. *)
+Theorem C31_halfspace :
+  (forall ns x0s pts i p,
+     length ns = length x0s -> nth_error pts i = Some p ->
+     match half_space_int ns x0s pts with
+     | HOk bs => nth_error bs i = Some true <->
+                 (forall n x0, In (n, x0) (combine ns x0s) -> dot3 (sub3 p x0) n <= 0)
+     | HErr _ => False
+     end) /\
+  (forall ns x0s pts, length ns <> length x0s -> half_space_int ns x0s pts = HErr ValueErr).
+Proof. split; [exact half_space_member|exact half_space_shape_error]. Qed.
+Print Assumptions C31_halfspace.
+
+(* points_are_collinear (after the fix): fewer than three points are collinear; a set all
+   of whose points p_k (k >= 2) have (p_k - p_0) x (p_1 - p_0) = 0 is accepted for every
+   tolerance; an accepted set has every such cross product within tol * max(1, diameter)
+   (squared form). *)
+Theorem C31_collinear :
+  (forall tol pts, (length pts <= 2)%nat -> points_are_collinear tol pts = true) /\
+  (forall tol p0 p1 q rest,
+     let pts := p0 :: p1 :: q :: rest in
+     ((forall p, In p (q :: rest) -> zero3 (crs3 (sub3 p p0) (sub3 p1 p0))) ->
+      points_are_collinear tol pts = true) /\
+     (points_are_collinear tol pts = true ->
+      forall p, In p (q :: rest) ->
+        let c := crs3 (sub3 p p0) (sub3 p1 p0) in
+        dot3 c c <= tol * tol * max_sqdist pts 1)).
+Proof. split; [exact collinear_few|exact collinear_spec]. Qed.
+Print Assumptions C31_collinear.
+
+(* point_in_polygon (after the fix), convex part: for ANY vertex list and any default,
+   a point strictly to the left of every edge (= strictly inside a convex counter-clockwise
+   polygon) is reported inside.  PARTIAL: the converse for convex polygons (outside points
+   give winding number 0) and the general statement for simple non-convex polygons are not
+   proved; they are covered by the finite-domain theorem below, the tie and the oracle. *)
+Theorem C31_pip_convex_inside_partial :
+  forall default poly p,
+    poly <> [] ->
+    (forall a b, In (a, b) (combine poly (roll1 poly)) -> 0 < cross3 a b p) ->
+    point_in_polygon default poly p = true.
+Proof. exact pip_all_left. Qed.
+Print Assumptions C31_pip_convex_inside_partial.
+
+(* point_in_polygon, non-convex polygons, finite domain: for the five fixed integer
+   polygons (L, U, comb, zig-zag band, clockwise arrow) and ALL integer points with
+   -2 <= x, y <= 8 the answer is the even-odd crossing-number test [pip_ref] (exact
+   rational ray casting), and the caller's default exactly on the boundary. *)
+Theorem C31_pip_nonconvex_boxes :
+  forall poly, In poly [poly_L; poly_U; poly_comb; poly_zig; poly_arrow_cw] ->
+  forall (x y : Z) (default : bool), (-2 <= x <= 8)%Z -> (-2 <= y <= 8)%Z ->
+    point_in_polygon default poly (inject_Z x, inject_Z y)
+    = match pip_ref poly (inject_Z x, inject_Z y) with None => default | Some b => b end.
+Proof. exact pip_nonconvex_boxes. Qed.
+Print Assumptions C31_pip_nonconvex_boxes.
+
+(* sort_point_pairs, the chaining step (PARTIAL: only the inner-loop link is proved —
+   the pair appended at each step is a not-yet-used input pair, possibly flipped, whose
+   first entry equals the open end `prev`, and the new open end is its second entry; and
+   when nothing is appended no unused pair touches `prev`.  Missing: the loop-level
+   invariant that lifts this to "the output is a permutation forming one chain" and
+   completeness on every single chain/cycle; both are checked by the exact oracle and the
+   model is tied to the code on chains, cycles and broken inputs). *)
+Theorem C31_chain_step_partial :
+  (forall lines found prev j0 j l np,
+     scan lines found prev j0 = Some (j, l, np) ->
+     exists k a b,
+       j = (j0 + k)%nat /\ nth_error lines k = Some (a, b) /\ nth_error found k = Some false /\
+       (l = (a, b) \/ l = (b, a)) /\ fst l = prev /\ np = snd l) /\
+  (forall lines found prev j0 k a b,
+     scan lines found prev j0 = None ->
+     nth_error lines k = Some (a, b) -> nth_error found k = Some false ->
+     a <> prev /\ b <> prev).
+Proof. split; [exact scan_spec|exact scan_none]. Qed.
+Print Assumptions C31_chain_step_partial.
+
+(* Non-vacuity. *)
+Example C31_nonvacuous_ccw :
+  is_ccw_polygon poly_L = true /\ area2 poly_L == 24 /\ is_ccw_polygon (rev poly_L) = false.
+Proof. repeat split; vm_compute; reflexivity. Qed.
+
+Example C31_nonvacuous_pip_left :
+  let tri := [(0, 0); (4, 0); (0, 4)] in
+  tri <> [] /\ (forall a b, In (a, b) (combine tri (roll1 tri)) -> 0 < cross3 a b (1, 1)) /\
+  point_in_polygon false tri (1, 1) = true /\ point_in_polygon true tri (3, 3) = false.
+Proof.
+  cbv zeta. split; [discriminate|]. split; [|split; vm_compute; reflexivity].
+  intros a b Hin. cbn in Hin.
+  destruct Hin as [E | [E | [E | []]]]; injection E as <- <-; vm_compute; reflexivity.
+Qed.
+
+Example C31_nonvacuous_pip_far_edge :
+  point_in_polygon false poly_L (3, 2) = true /\ pip_ref poly_L (3, 2) = Some true.
+Proof. exact pip_L_far_edge. Qed.
+
+Example C31_nonvacuous_halfspace :
+  half_space_int [(0, 1, 0); (1, 0, 0)] [(0, 0, 0); (-1, 0, 0)]
+                 [(-1, 2, 0); (-1, -2, 0); (4, -2, 0)] = HOk [false; true; false].
 Proof. vm_compute. reflexivity. Qed.
-Print Assumptions C31_placeholder.
+
+Example C31_nonvacuous_collinear :
+  points_are_collinear (1 # 100000) [(0, 0, 0); (1, 0, 0); (0, 1, 0)] = false /\
+  points_are_collinear (1 # 100000) [(0, 0, 0); (1, 1, 0); (3, 3, 0); (2, 2, 0)] = true.
+Proof. split; vm_compute; reflexivity. Qed.
+
+Example C31_nonvacuous_sort :
+  sort_point_pairs [(1, 2); (5, 1); (2, 7); (7, 5)]%Z true true
+  = SOk [(1, 2); (2, 7); (7, 5); (5, 1)]%Z [0; 2; 3; 1]%nat /\
+  scan [(1, 2); (5, 1); (2, 7); (7, 5)]%Z [true; false; false; false] 2%Z 0%nat
+  = Some (2%nat, (2, 7)%Z, 7%Z).
+Proof. split; vm_compute; reflexivity. Qed.
